@@ -106,9 +106,6 @@ let interps_string l = join " " interp_string l
 let handles_string l = sl l
 
 (* ---------- ADF cases ---------- *)
-(* flags describing the code that exists (see DESIGN.md section 6): changed together with the fix: commits *)
-let flag_stop_on_err = ref true
-let flag_rand_filtered = ref false
 let ng_budget = ref 300000
 let draws : n list ref = ref []
 let heuristic_of_words (h : string) (rest : string list) : heuristic =
@@ -138,7 +135,7 @@ let run_adf id (lines : string list) =
     | ["cfg"; s] -> cfgs := s
     | "draws" :: l -> draws := List.map n_of_string l
     | ["seed"; _] -> ()
-    | ["flags"; a; b] -> flag_stop_on_err := (a = "1"); flag_rand_filtered := (b = "1")
+
     | "q" :: rest -> queries := rest :: !queries
     | [] -> ()
     | _ -> failwith ("bad adf line: " ^ line)) lines;
@@ -166,12 +163,12 @@ let run_adf id (lines : string list) =
           | ["stablepre"] -> let (s, l) = unopt (stable_with_prefilter c a.st a.ac) in a.st <- s; emit id qid ("stablepre " ^ interps_string l)
           | ["table"] -> emit id qid ("table " ^ sn a.st.size ^ " " ^ table_string a.st)
           | ["acs"] -> emit id qid ("acs " ^ handles_string a.ac)
-          | ["stmca"] -> let (s, l) = unopt (stable_count c heu_a a.ac !flag_stop_on_err a.st) in a.st <- s; emit id qid ("stmca " ^ interps_string l)
-          | ["stmcb"] -> let (s, l) = unopt (stable_count c heu_b a.ac !flag_stop_on_err a.st) in a.st <- s; emit id qid ("stmcb " ^ interps_string l)
+          | ["stmca"] -> let (s, l) = unopt (stable_count_cur c heu_a a.ac a.st) in a.st <- s; emit id qid ("stmca " ^ interps_string l)
+          | ["stmcb"] -> let (s, l) = unopt (stable_count_cur c heu_b a.ac a.st) in a.st <- s; emit id qid ("stmcb " ^ interps_string l)
           | "stmng" :: h :: rest | "twoval" :: h :: rest ->
             let two = (List.hd q = "twoval") in
             let heu = heuristic_of_words h rest in
-            (match nogood_search c a.ac heu !flag_rand_filtered two (nat_of_int !ng_budget) a.st !draws with
+            (match nogood_search_cur c a.ac heu two (nat_of_int !ng_budget) a.st !draws with
              | Some (s, l) -> a.st <- s; emit id qid (List.hd q ^ " " ^ interps_string l)
              | None -> emit id qid (List.hd q ^ " NONTERMINATION"))
           | ["counts"; m] ->
@@ -252,6 +249,23 @@ let run_ng id (lines : string list) =
       | _ -> failwith ("bad ng line: " ^ line)) lines
   with Exit -> emit id "PANIC" "")
 
+
+(* ---------- leaf predicates (regenerated definitions) ---------- *)
+let run_leaf id (lines : string list) =
+  let k = ref 0 in
+  List.iter (fun line ->
+    let qid = "q" ^ string_of_int !k in
+    let bs b = if b then "1" else "0" in
+    match words line with
+    | ["more"; cm; m] -> incr k; emit id qid ("more " ^ bs (g_more_models (n_of_string cm, n_of_string m)))
+    | ["min"; cm; m] -> incr k; emit id qid ("min " ^ sn (g_minimum (n_of_string cm, n_of_string m)))
+    | ["istv"; a] -> incr k; emit id qid ("istv " ^ bs (g_is_truth_value (n_of_string a)))
+    | ["cmpinf"; a; b] -> incr k; emit id qid ("cmpinf " ^ bs (g_compare_inf (n_of_string a) (n_of_string b)))
+    | ["noinf"; a; b] -> incr k; emit id qid ("noinf " ^ bs (g_no_inf_inconsistency (n_of_string a) (n_of_string b)))
+    | ["isconst"; v] -> incr k; emit id qid ("isconst " ^ bs (g_is_constant (n_of_string v)))
+    | [] -> ()
+    | _ -> failwith ("bad leaf line " ^ line)) lines
+
 (* ---------- main loop ---------- *)
 let () =
   let ic = if Array.length Sys.argv > 1 then open_in Sys.argv.(1) else stdin in
@@ -272,6 +286,7 @@ let () =
               | "ITER2" | "ITER3" -> run_iter id kind lines
               | "PARSE" -> run_parse id lines
               | "NG" -> run_ng id lines
+              | "LEAF" -> run_leaf id lines
               | _ -> failwith ("unknown case kind " ^ kind))
            with Stack_overflow -> emit id "STACKOVERFLOW" "");
            cur := None
